@@ -91,7 +91,7 @@ def configs(tier):
             add("tucker", shape=shp, rank=rank, K=K)
     add("tucker_partial", shape=(2, 2, 2), rank=[2, 1], modes=(0, 2), K=1)
     add("tucker_partial", shape=(2, 3, 2), rank=[1, 2], modes=(2, 1), K=2)
-    for shp, rank in [((2, 2), 1), ((2, 2), 2), ((2, 2, 2), 1), ((2, 2, 2), 2), ((2, 2, 2), [1, 2, 1, 1]), ((2, 3, 2), [1, 2, 2, 1]), ((3, 2, 2), 3), ((2, 2, 2, 2), 2), ((2, 2, 2), 5)]:
+    for shp, rank in [((2, 2), 1), ((2, 2), 2), ((2, 2, 2), 1), ((2, 2, 2), 2), ((2, 2, 2), [1, 2, 1, 1]), ((2, 3, 2), [1, 2, 2, 1]), ((3, 2, 2), 3), ((2, 2, 2, 2), 2), ((2, 2, 2), 5)] + [((2, 2, 1), 2), ((2, 1), 1), ((2, 2, 1, 1), 2), ((1, 2, 2), 2)]:  # singleton modes: leading, trailing, repeated
         add("tt", shape=shp, rank=rank)
     for shp, rank in [((2, 2, 2, 2), 2), ((2, 2, 2, 2), [1, 3, 1]), ((2, 2), 1)]:
         add("tt_matrix", shape=shp, rank=rank)
@@ -343,6 +343,19 @@ def h_more(E, cfg):
         tcp, mcp, errs = cmtf(np.array(X), np.array(Y), rank, init="svd", n_iter_max=2, tol=E.real("tol", pos=True), normalize_factors=bool(norm))
         (w, fs), (wm, fm) = tcp, mcp
         E.prove("shapes", all(np.shape(f) == (n, rank) for f, n in zip(fs, shp)) and np.shape(fm[0]) == (shp[0], rank) and np.shape(fm[1]) == (2, rank))
+        if E.symbolic:
+            # the (re)normalised outputs represent the tensors of the last sweep's raw least-squares factors (scale carried by the weights)
+            from props.c06 import dense_cp
+
+            calls = [c for c in sym.CTX.stub_calls if c[0] == "lstsq"][-4:]
+            V_, C_, B_, A_ = [np.asarray(c[2], dtype=object).T for c in calls]
+            E.prove("represented_tensor_is_last_iterate", E.eq_arrays(dense_cp(w, fs), dense_cp(None, [A_, B_, C_])))
+            E.prove("represented_matrix_is_last_iterate", E.eq_arrays(dense_cp(wm, fm), dense_cp(None, [A_, V_])))
+        else:
+            # replay: the represented pair must not depend on the normalisation option
+            t0, m0, _ = cmtf(np.array(X), np.array(Y), rank, init="svd", n_iter_max=2, tol=float(E.real("tol", pos=True)), normalize_factors=False)
+            E.prove("represented_tensor_is_last_iterate", E.eq_arrays(tl.cp_to_tensor((w, fs)), tl.cp_to_tensor(t0)))
+            E.prove("represented_matrix_is_last_iterate", E.eq_arrays(tl.cp_to_tensor((wm, fm)), tl.cp_to_tensor(m0)))
         if norm:
             conds = []
             for f in list(fs) + list(fm):
